@@ -70,6 +70,8 @@ func (e *env) valid(n, variant, ht int) string {
 
 var nextLoaderErr error // guarded by loaderMu
 
+var parseMu sync.Mutex
+
 var failKinds = []string{
 	"syntax", "unknown-directive", "bad-arg-timeouts", "bad-arg-gzip", "bad-arg-redir", "bad-arg-limits", "bad-arg-proxy-policy",
 	"missing-htpasswd", "malformed-htpasswd", "missing-cert", "missing-import", "missing-template-arg", "startup-callback-log", "startup-command",
@@ -442,7 +444,18 @@ func child(args []string) int {
 		emit(s)
 	}
 	if inst != nil {
-		lib.StopWait(inst)
+		// what a fresh process does after its (only) load: once the servers are
+		// stopped, waiting on the instance comes back
+		inst.Stop()
+		done := make(chan struct{})
+		go func() { inst.Wait(); close(done) }()
+		returned := true
+		select {
+		case <-done:
+		case <-time.After(20 * time.Second):
+			returned = false
+		}
+		fmt.Printf("{\"wait_returned_after_stop\": %v}\n", returned)
 	}
 	return 0
 }
@@ -591,8 +604,17 @@ func runHistory(c *lib.Ctx, id int, h history) {
 	c.Journal("C08 history %d %s", id, lib.JSON(h.Steps))
 	in, _ := json.Marshal(h)
 	res := c.Sub("hist", nil, in, nil, 6*time.Minute)
+	parseMu.Lock()
 	snaps, hung := parseSnaps(res.Stdout)
+	stuck := waitStuck
+	parseMu.Unlock()
 	c.Eval(1)
+	if stuck {
+		c.Violation("C08/wait-never-returns-after-failed-loads", "after the history every server was stopped, yet waiting on the instance did not return within 20 s (in a fresh process that loaded only the final configuration it does)",
+			map[string]interface{}{"history": id, "steps": h.Steps})
+	} else {
+		c.Count("histories_where_wait_returned_after_stop", 1)
+	}
 	hasFail := false
 	for _, s := range h.Steps {
 		if s.Kind != "valid" {
@@ -704,7 +726,12 @@ func runHistory(c *lib.Ctx, id int, h history) {
 	c.SampleTag("history", 3, map[string]interface{}{"steps": h.Steps, "final_battery_lines": len(got)})
 }
 
+// waitStuck is set by parseSnaps (histories run one at a time per parser call;
+// read right after the call).
+var waitStuck bool
+
 func parseSnaps(out []byte) ([]*snapshot, int) {
+	waitStuck = false
 	var snaps []*snapshot
 	hung := -1
 	sc := bufio.NewScanner(bytes.NewReader(out))
@@ -720,6 +747,14 @@ func parseSnaps(out []byte) ([]*snapshot, int) {
 		}
 		if hs, ok := probe["hung_step"]; ok {
 			json.Unmarshal(hs, &hung)
+			continue
+		}
+		if wr, ok := probe["wait_returned_after_stop"]; ok {
+			var b bool
+			json.Unmarshal(wr, &b)
+			if !b {
+				waitStuck = true
+			}
 			continue
 		}
 		var s snapshot
